@@ -51,3 +51,16 @@ package parsing
 //@   modifies everything()
 //@   exits any
 //@   ensures fragNext ==> !typeis(fragOut_exp, ast.FunctionCall) && !typeis(fragOut_exp, ast.Etc)
+
+// A syntax error is reported at the offending token: when the block of an `if`
+// statement is not followed by elseif / else / end, the error names the token
+// found there (endTok), not the `if` keyword that opened the statement.
+//@ func (*Parser).If
+//@   prop C12
+//@   arith int
+//@   norte
+//@   nocover
+//@   modifies everything()
+//@   exits any
+//@   loop 1: invariant true
+//@   assert_before_call tokenError: $t == endTok
